@@ -50,7 +50,9 @@ pub struct Item {
     pub detached: bool,
 }
 
-pub const ITEMS: [Item; 16] = [
+pub const ITEMS: [Item; 17] = [
+    // bash strict mode: scrut's own code behind the expression runs under errexit and pipefail, too
+    Item { name: "strict-mode-exit2-expected", md: "set -eo pipefail; echo hello; exit 2", cram: "echo hello; (exit 2)", expectations: &["hello"], code: Some(2), kind: "success", has_exit_code: true, detached: false },
     // a test case that redefines what scrut's own code around the expression calls, or sets options that end / disable a shell:
     // the verdicts of the following test cases are still about their own commands
     Item { name: "defines-functions-named-exit-unset-trap", md: "exit() { builtin exit 0; }", cram: "true", expectations: &[], code: None, kind: "success", has_exit_code: true, detached: false },
